@@ -484,9 +484,10 @@ def check_solves(c, ps, bs, t, nodes, M, out):
                     out['singular'] = out.get('singular', 0) + 1
                     continue
                 xs = pad(nb, lo, sol)
-                if not (np.all(np.isfinite(cfp)) and np.all(np.isfinite(php))) and not (np.isfinite(kappa) and kappa < 1e12):
-                    # an under-integrated system that is singular up to the rounding of its tables: the exact solve goes through,
-                    # a binary64 factorisation may legitimately break down - nothing is claimed there
+                if not (np.isfinite(kappa) and kappa < 1e12):
+                    # an under-integrated system that is singular up to the rounding of its tables (condition number beyond 1e12):
+                    # the exact solve goes through, a binary64 sparse factorisation of a numerically singular matrix may break
+                    # down or return anything - the Galerkin solution is not determined to working precision, nothing is claimed
                     out['singular'] = out.get('singular', 0) + 1
                     continue
                 if not (np.all(np.isfinite(cfp)) and np.all(np.isfinite(php))):
